@@ -213,6 +213,116 @@ def ecaRateSeries (w : Window) (ts1 : List Rat) (bx : List Bool) (ts2 : List Rat
     (by_ : List Bool) (taumax lag : Rat) : Option (Rate × Rate) :=
   ecaRate w (select ts1 bx) (select ts2 by_) taumax lag
 
+/-! ## the published counting formulas, index-wise (specification side)
+
+`esFormula`, `ecaFormula`, `ecaRateFormula` restate the formulas of [Quiroga2002] /
+[Odenweller2020] over event *indices* and event *times* — no slices, no doubled
+quantities, boundary events excluded by their times.  `Properties/C16.lean` proves
+`es = esFormula…`, `eca = ecaFormula`, `ecaRate = ecaRateFormula`; the driver
+evaluates both sides. -/
+
+/-- event `i` of a series with the smaller of its two neighbouring waiting times -/
+def evAt (l : List Rat) (i : Nat) : Ev :=
+  (l.getD i 0, min (l.getD (i + 1) 0 - l.getD i 0) (l.getD i 0 - l.getD (i - 1) 0))
+
+/-- `τ_ij = ½ min{t^x_{i+1}-t^x_i, t^x_i-t^x_{i-1}, t^y_{j+1}-t^y_j, t^y_j-t^y_{j-1}}`,
+at most `taumax` -/
+def tauIJ (tm : Option Rat) (x y : List Rat) (i j : Nat) : Rat :=
+  let g := min (evAt x i).2 (evAt y j).2 / 2
+  match tm with
+  | none => g
+  | some m => min g m
+
+/-- `0 < t^x_i - t^y_j ≤ τ_ij` -/
+def jXY (tm : Option Rat) (x y : List Rat) (i j : Nat) : Bool :=
+  decide (0 < x.getD i 0 - y.getD j 0) && decide (x.getD i 0 - y.getD j 0 ≤ tauIJ tm x y i j)
+/-- `0 < t^y_j - t^x_i ≤ τ_ij` -/
+def jYX (tm : Option Rat) (x y : List Rat) (i j : Nat) : Bool :=
+  decide (0 < y.getD j 0 - x.getD i 0) && decide (y.getD j 0 - x.getD i 0 ≤ tauIJ tm x y i j)
+/-- `t^x_i = t^y_j` -/
+def jEq (x y : List Rat) (i j : Nat) : Bool := decide (x.getD i 0 = y.getD j 0)
+
+/-- indices `1 … l-2` of the inner events -/
+def innerIdx (l : List Rat) : List Nat := List.range' 1 (l.length - 2)
+
+/-- `c(x|y) = Σ_{i=1}^{lx-2} Σ_{j=1}^{ly-2} J_ij`, `J_ij = 1` if `0 < t^x_i - t^y_j ≤ τ_ij`
+(`½` if event `i` or event `j` also takes part in a pair counted for the other direction),
+`½` if `t^x_i = t^y_j`, `0` otherwise.  `c(y|x)` is `esFormula tm y x`. -/
+def esFormula (tm : Option Rat) (x y : List Rat) : Rat :=
+  ((innerIdx x).map fun i => ((innerIdx y).map fun j =>
+    if jXY tm x y i j then
+      (if (innerIdx y).any (fun j' => jYX tm x y i j') ||
+          (innerIdx x).any (fun i' => jYX tm x y i' j) then (1 / 2 : Rat) else 1)
+    else if jEq x y i j then 1 / 2 else 0).sum).sum
+
+/-- `event_synchronization` as guards + the index-wise formula -/
+def esSpec (ex ey : List Rat) (taumax : Option Rat) (lag : Rat) : ESRes :=
+  let ey := ey.map (· + lag)
+  if ex.length = 0 ∨ ey.length = 0 then .nan
+  else if ex.length ≤ 2 ∨ ey.length ≤ 2 then .zero
+  else .val (esFormula taumax ex ey) (esFormula taumax ey ex) ((ex.length - 2) * (ey.length - 2))
+
+/-- an event too early to have a precursor inside the record: `t ≤ t_first + lag + taumax` -/
+def early (e : List Rat) (c : Rat) (t : Rat) : Bool :=
+  match e.head? with
+  | some h => decide (t ≤ h + c)
+  | none => false
+/-- an event too late to trigger inside the record: `t ≥ t_last - lag - taumax` -/
+def late (e : List Rat) (c : Rat) (t : Rat) : Bool :=
+  match e.getLast? with
+  | some h => decide (h - c ≤ t)
+  | none => false
+
+/-- `r = (1/(N - n)) Σ_i Θ[Σ_j 1_[ΔT1,ΔT2](t_i - (t_j + τ))]` over the events of `as` that
+satisfy `keep`; `n` = number of events excluded at the start (`nS`) and the end (`nE`) -/
+def rateFormula (win : Rat → Bool) (lag : Rat) (keep : Rat → Bool) (as bs : List Rat)
+    (nS nE : Nat) : Rate :=
+  rate ((as.filter keep).countP fun a => bs.any fun b => win (a - b - lag))
+    ((as.length : Int) - nS - nE)
+/-- the same for the events of `bs` lying in the window of an event of `as` (trigger rates) -/
+def rateFormulaT (win : Rat → Bool) (lag : Rat) (keep : Rat → Bool) (as bs : List Rat)
+    (nE : Nat) : Rate :=
+  rate ((bs.filter keep).countP fun b => as.any fun a => win (a - b - lag))
+    ((bs.length : Int) - nE)
+
+/-- `event_coincidence_analysis` with boundary events excluded by their *times* -/
+def ecaFormula (e1 e2 : List Rat) (taumax lag : Rat) : Option EcaOut :=
+  if e1 = [] ∨ e2 = [] then none else
+  let inst : Bool := decide (lag = 0) && decide (taumax = 0)
+  let c := lag + taumax
+  let notEarly (e : List Rat) (t : Rat) : Bool := inst || !early e c t
+  let notLate (e : List Rat) (t : Rat) : Bool := inst || !late e c t
+  let nS (e : List Rat) : Nat := e.countP fun t => !notEarly e t
+  let nE (e : List Rat) : Nat := e.countP fun t => !notLate e t
+  let win := inWin 0 taumax
+  some {
+    prec12 := rateFormula win lag (notEarly e1) e1 e2 (nS e1) 0
+    trig12 := rateFormulaT win lag (notLate e2) e1 e2 (nE e2)
+    prec21 := rateFormula win lag (notEarly e2) e2 e1 (nS e2) 0
+    trig21 := rateFormulaT win lag (notLate e1) e2 e1 (nE e1) }
+
+/-- `_eca_coincidence_rate` with boundary events excluded by their times -/
+def ecaRateFormula (w : Window) (e1 e2 : List Rat) (taumax lag : Rat) : Option (Rate × Rate) :=
+  if e1 = [] ∨ e2 = [] then none else
+  let inst : Bool := decide (lag = 0) && decide (taumax = 0)
+  let c := lag + taumax
+  let notEarly (e : List Rat) (t : Rat) : Bool := inst || !early e c t
+  let notLate (e : List Rat) (t : Rat) : Bool := inst || !late e c t
+  let nS (e : List Rat) : Nat := e.countP fun t => !notEarly e t
+  let nE (e : List Rat) : Nat := e.countP fun t => !notLate e t
+  match w with
+  | .advanced =>
+    some (rateFormula (inWin 0 taumax) lag (notEarly e1) e1 e2 (nS e1) 0,
+          rateFormula (inWin 0 taumax) lag (notEarly e2) e2 e1 (nS e2) 0)
+  | .retarded =>
+    some (rateFormulaT (inWin 0 taumax) lag (notLate e2) e1 e2 (nE e2),
+          rateFormulaT (inWin 0 taumax) lag (notLate e1) e2 e1 (nE e1))
+  | .symmetric =>
+    some (rateFormula (inWin (-taumax) taumax) lag (fun t => notEarly e1 t && notLate e1 t)
+            e1 e2 (nS e1) (nE e1),
+          rateFormula (inWin (-taumax) taumax) lag (fun t => notEarly e2 t && notLate e2 t)
+            e2 e1 (nS e2) (nE e2))
+
 /-! ## N×N assembly and symmetrisation -/
 
 abbrev Mat (α : Type) := List (List α)
